@@ -126,3 +126,31 @@ Theorem C08_label_kept_if_distinct :
                    forall p, nm_find h (cs_labels s) = Some p -> nm_find h (cs_labels s') = Some p.
 Proof. exact label_insert_preserves. Qed.
 Print Assumptions C08_label_kept_if_distinct.
+
+(* ---- findings N-C08-1 / N-C08-2 (confirmed on the crate at 2f34106, repaired by 4a89bbc) ---- *)
+(* the former super_depth counted the substring "super." inside an ordinary segment such as xsuper *)
+Theorem C08_super_depth_legacy_refuted :
+  super_depth_legacy (w_xsuper ++ [c_dot] ++ w_bar) = Some (1%nat, Some w_bar) /\
+  super_depth (w_xsuper ++ [c_dot] ++ w_bar) = Some (0%nat, None).
+Proof. exact super_depth_legacy_refuted. Qed.
+Print Assumptions C08_super_depth_legacy_refuted.
+
+(* root { imports = ["xsuper.bar"]; xsuper { bar }; main = [Call bar] }: the specification designates
+   xsuper.bar and the compiled call carries its handle (function 1 in the compiler's order) *)
+Theorem C08_import_of_xsuper_repaired :
+  spec_resolve (Module [(w_xsuper, Module [] [(w_bar, fn0 [CScalarNil])] [])] [(s_main, fn0 [CCall w_bar []])] [])
+               [] [w_xsuper ++ [c_dot] ++ w_bar] w_bar = SFound ([w_xsuper], w_bar) /\
+  exists B, compile n_c08_1_module {| o_recursion_limit := 64%N; o_debug := true |} = COk B /\
+            In (IFunctionPointer (handle_from_u64 1) 0)
+               (match decode (p_bytecode B) with Some l => map snd l | None => [] end).
+Proof. exact n_c08_1_repaired. Qed.
+Print Assumptions C08_import_of_xsuper_repaired.
+
+(* xsuper { util { f }; m1 { imports = ["super.util"]; g = [Call util.f] } }: a module imported through
+   `super` resolves its functions *)
+Theorem C08_module_import_through_super_repaired :
+  exists B, compile n_c08_2_module {| o_recursion_limit := 64%N; o_debug := true |} = COk B /\
+            In (IFunctionPointer (handle_from_u64 1) 0)
+               (match decode (p_bytecode B) with Some l => map snd l | None => [] end).
+Proof. exact n_c08_2_repaired. Qed.
+Print Assumptions C08_module_import_through_super_repaired.
